@@ -16,6 +16,8 @@ modules the C20 harness executes, and lists every construct that creates state o
   mutable-default  a default argument value that is a container or an instance of a not-known-immutable class
   cache            a function decorated with a memoising decorator (`functools.lru_cache`, `functools.cache`, anything
                    whose name contains `cache`/`memo`, except the per-instance `cached_property`)
+  container-write  a statement inside a function that writes into a module-state container (`mmap[k] = v`, `memory.append(x)`);
+                   identified by container, function and ordinal — a NEW write site means a new kind of record in known state
   global-effect    a call that changes interpreter-wide settings (`random.seed`, `sys.setrecursionlimit`, `os.environ`…)
 
 NOT state (so that harmless edits stay silent): numbers, strings, bytes, `None`, tuples / frozensets / arithmetic of
@@ -102,6 +104,7 @@ class Scan(ast.NodeVisitor):
         self.immutable_classes: set[str] = set()  # classes of this module whose instances cannot change
         self.candidates: dict[str, tuple[int, str]] = {}   # module-level name -> (line, value kind)
         self.mutated: dict[str, int] = {}         # module-level name -> line of an in-place mutation / global rebinding
+        self.writes: list[tuple[str, str, int]] = []   # (module-level container, function that writes into it, line)
         self._collect_module_level()
         self._walk_body(tree.body, scope=None, cls=None, shadow=frozenset())
         self._finish()
@@ -369,6 +372,7 @@ class Scan(ast.NodeVisitor):
                 root = root.value
             if isinstance(root, ast.Name) and root.id not in shadow and root.id in self.candidates and scope is not None:
                 self.mutated.setdefault(root.id, line)
+                self.writes.append((root.id, scope, line))
             elif isinstance(root, ast.Name) and root.id not in shadow and scope is None and root.id in self.candidates:
                 pass    # module-level initialisation code filling a table is part of its definition
 
@@ -409,6 +413,7 @@ class Scan(ast.NodeVisitor):
                     root = root.value
                 if isinstance(root, ast.Name) and root.id not in shadow and root.id in self.candidates:
                     self.mutated.setdefault(root.id, node.lineno)
+                    self.writes.append((root.id, scope, node.lineno))
                 # class-level containers mutated through the class object: `Cls.memo.append(...)`, `cls.memo[...]`
         for ch in ast.iter_child_nodes(node):
             if isinstance(ch, (ast.expr_context, ast.operator, ast.boolop, ast.cmpop, ast.unaryop)):
@@ -426,6 +431,16 @@ class Scan(ast.NodeVisitor):
                 self.add("module-state", nm, line, f"container-mutated(line {self.mutated[nm]})")
             elif kind == "instance":
                 self.add("module-state", nm, line, "instance")
+
+        # every statement that writes INTO an inventoried module-level container is an entry of its own (`container-write`,
+        # named by container, writing function and ordinal): a second kind of record kept in an already known container —
+        # a memo stored inside `mmap` — shows as a new write site even though no new object appears
+        state = {e["name"] for e in self.entries if e["cat"] == "module-state"}
+        seen: dict = {}
+        for nm, scope, line in sorted(self.writes, key=lambda w: w[2]):
+            if nm in state:
+                k = seen[(nm, scope)] = seen.get((nm, scope), 0) + 1
+                self.add("container-write", f"{nm}<-{scope}#{k}", line, "write-site")
 
     def _is_global_rebound(self, nm: str) -> bool:
         for n in ast.walk(self.tree):
